@@ -31,6 +31,8 @@ type c05Case struct {
 	HugeAfter int     `json:"huge_after"` // a normal chunk of this many octets is accepted before the huge one (size limit 40)
 	Huge      string  `json:"huge"`       // declared size of a BDAT whose octets can never all arrive (decimal string)
 	NoLast    string  `json:"no_last"`    // "", QUIT, disconnect: no chunk carries LAST; the transfer is ended this way
+	MarkEmpty bool    `json:"mark_empty"` // the marker after every chunk is an empty line (answered 5xx) instead of NOOP
+	Pad       int     `json:"pad"`        // the chunk sizes are written with this many leading zeros (chunk-size = 1*DIGIT, decimal)
 	StallAt   int     `json:"stall_at"`   // > 0: ReadTimeout is set and the read deadline is fired after this many payload octets; the peer then carries on
 }
 
@@ -94,6 +96,12 @@ func c05Run(ctx *core.Ctx) {
 		mk := func(msg []byte, chunks []int, extra bool, seg string, mode srvMode, limit int, noop bool) {
 			idx++
 			c := c05Case{Msg: msg, MsgQ: fmt.Sprintf("%.80q", msg), Chunks: chunks, ExtraLast: extra, Seg: seg, Mode: mode, LineLimit: limit, Noop: noop}
+			if idx%5 == 2 {
+				c.Pad = 1 + idx%3
+			}
+			if nm := len(chunks) - 1; noop && idx%2 == 0 && (nm <= 2 || (nm == 3 && !extra)) {
+				c.MarkEmpty = true // at most three of them: the error threshold is not reached
+			}
 			if seg == "cuts" {
 				r := core.NewRand(ctx.Seed, 51, uint64(idx))
 				n := len(msg) + 40*len(chunks) + 60
@@ -240,7 +248,7 @@ func c05Exec(ctx *core.Ctx, c c05Case) {
 		ctx.Broken("C05 case: chunk sizes do not add up")
 		return
 	}
-	ctx.Eval(fmt.Sprintf("%q|%v|%v|%s|%v|%s|%s|%d|%v", c.Msg, c.Chunks, c.ExtraLast, c.Seg, c.Cuts, c.Mode, c.Refuse, c.LineLimit, c.Noop)+c.NoLast,
+	ctx.Eval(fmt.Sprintf("%q|%v|%v|%s|%v|%s|%s|%d|%v", c.Msg, c.Chunks, c.ExtraLast, c.Seg, c.Cuts, c.Mode, c.Refuse, c.LineLimit, c.Noop)+c.NoLast+fmt.Sprint("|", c.Pad, c.MarkEmpty),
 		len(c.Chunks) > 1 || c.ExtraLast || c.Refuse != "" || (len(c.Chunks) == 1 && c.Chunks[0] == 0))
 
 	limitBytes := int64(0)
@@ -312,7 +320,7 @@ func c05Exec(ctx *core.Ctx, c c05Case) {
 	off := 0
 	for i, n := range c.Chunks {
 		last := i == len(c.Chunks)-1 && !c.ExtraLast && c.NoLast == ""
-		cmd := fmt.Sprintf("BDAT %d", n)
+		cmd := fmt.Sprintf("BDAT %s%d", strings.Repeat("0", c.Pad), n)
 		if last {
 			cmd += " LAST"
 		}
@@ -325,7 +333,11 @@ func c05Exec(ctx *core.Ctx, c c05Case) {
 		pieces = append(pieces, piece{cmd: cmd + "\r\n", payload: c.Msg[off : off+n], last: last})
 		off += n
 		if c.Noop && !last {
-			pieces = append(pieces, piece{marker: "NOOP\r\n"})
+			if c.MarkEmpty {
+				pieces = append(pieces, piece{marker: "\r\n"})
+			} else {
+				pieces = append(pieces, piece{marker: "NOOP\r\n"})
+			}
 		}
 	}
 	if c.ExtraLast && c.Refuse == "" && c.NoLast == "" {
@@ -492,7 +504,7 @@ func c05Exec(ctx *core.Ctx, c c05Case) {
 	var wantCodes []string
 	for _, pc := range pieces {
 		for k := 0; k < arity(pc); k++ {
-			if refused && pc.cmd != "" {
+			if (refused && pc.cmd != "") || pc.marker == "\r\n" {
 				wantCodes = append(wantCodes, "5xx")
 			} else {
 				wantCodes = append(wantCodes, "250")
